@@ -277,7 +277,7 @@ class Gen(object):
             return self.msg_element(loopvars)
         if self.rich_i18n and self.i18n and r < 0.15:
             return self.i18n_choose(loopvars)
-        if self.includes and 0.15 <= r < 0.25 and not self.modelled:
+        if self.includes and 0.15 <= r < 0.25:
             return self.include()
         if 0.25 <= r < 0.40 and self.defs:
             fn, arg = rng.choice(self.defs)
@@ -363,7 +363,7 @@ class Gen(object):
         self.features.add('include')
         name = rng.choice(self.includes + ['nosuch.html'])
         href = name
-        if rng.random() < 0.25:
+        if rng.random() < 0.25 and not self.modelled:
             href = '${s}.html'
             self.features.add('include-dynamic')
         fb = ''
@@ -385,8 +385,17 @@ def rand_template(rng, modelled=False):
     """-> dict(src, files, translator, auto_reload, features)"""
     translator = rng.random() < (0.6 if not modelled else 0.5)
     files = {}
-    use_files = not modelled and rng.random() < 0.3
-    if use_files:
+    use_files = rng.random() < (0.3 if not modelled else 0.35)
+    if use_files and modelled:
+        # run-time includes only (auto_reload on): one included file of the same dialect
+        g = Gen(rng, True, i18n=translator, includes=())
+        g.budget = 4
+        files['inc.html'] = g.template()
+        if rng.random() < 0.3:
+            g2 = Gen(rng, True, i18n=translator, includes=())
+            g2.budget = 3
+            files['w2.html'] = g2.template()
+    elif use_files:
         g = Gen(rng, False, i18n=translator, includes=())
         g.budget = 4
         files['inc.html'] = g.template()
@@ -400,7 +409,7 @@ def rand_template(rng, modelled=False):
     if use_files:
         feats.add('loader')
     return {'src': src, 'files': files, 'translator': translator,
-            'auto_reload': bool(rng.random() < 0.5) if use_files else True,
+            'auto_reload': (bool(rng.random() < 0.5) if use_files else True) or modelled,
             'features': sorted(feats)}
 
 
